@@ -44,7 +44,11 @@ Inductive rexpr :=
 Inductive xq :=
 | XOk (r : rexpr)                 (* the expression text parses in every mode *)
 | XStrictOnly (r : rexpr)         (* rejected by a check made only when env.mode is STRICT *)
-| XBad (e : exn).                 (* raises e (a LiquidSyntaxError, or TemplateInheritanceError for a wrong endblock name) in every mode *)
+| XBad (e : exn)                  (* raises e in every mode: LiquidSyntaxError; TemplateInheritanceError for a wrong endblock name;
+                                     ContextDepthError for an expression nested so deeply that parsing it overflows the stack
+                                     (before the repair: RecursionError, which Tag.get_node does not catch) *)
+| XTailBad (r : rexpr).           (* a when list: the first alternatives evaluate to r, a later one is a syntax error.  The error goes
+                                     to Environment.error and the list is cut there (before the repair it was dropped silently) *)
 
 Inductive tname :=
 | Nif | Nunless | Nelsif | Nelse | Nendif | Nendunless
@@ -65,7 +69,7 @@ Inductive tok :=
 | TOutput
 | TExpr (q : xq)
 | TTag (n : tname)
-| TComment                        (* the text between comment and endcomment *)
+| TComment                        (* the text between comment and endcomment (reaching the parser's loop it is not content: an error) *)
 | TDoc                            (* a well-formed doc block *)
 | TLiquid (inner : option (list tok)).   (* the expression of a liquid tag: its own token stream (None: a line is not a tag) *)
 
@@ -195,6 +199,7 @@ Section Parser.
     | XOk r => inr r
     | XStrictOnly r => match m with Strict => inl ESyntax | _ => inr r end
     | XBad e => inl e
+    | XTailBad _ => inl ESyntax
     end.
 
   (* stream.into_inner(tag=..., eat=...) followed by the tag's expression parser *)
@@ -259,7 +264,10 @@ Section Parser.
     | S g' =>
         if cur_is_tag Nelsif st then
           match inner true (adv st) with
-          | inr (e, st') => handled m e st' l (fun l' => POk None (eat_block [endt; Nelsif; Nelse] st') l')
+          | inr (e, st') =>
+              (* the handler around the elsif expression catches LiquidSyntaxError only *)
+              if exn_eqb e ESyntax then handled m e st' l (fun l' => POk None (eat_block [endt; Nelsif; Nelse] st') l')
+              else PErr e st' l
           | inl (r, st') =>
               pbind (pb [endt; Nelsif; Nelse] st' l) (fun b st2 l2 =>
               pbind (p_elsifs g' endt st2 l2) (fun oa st3 l3 =>
@@ -369,11 +377,19 @@ Section Parser.
           pbind (pb endwhen (adv st) l) (fun b st2 l2 =>
           pbind (p_cases g' st2 l2) (fun c st3 l3 => POk (CElse b c) st3 l3))
         else if cur_is_tag Nwhen st then
-          match inner true (adv st) with
-          | inr (e, st') => PErr e st' l
-          | inl (r, st') =>
-              pbind (pb endwhen st' l) (fun b st2 l2 =>
-              pbind (p_cases g' st2 l2) (fun c st3 l3 => POk (CWhen r b c) st3 l3))
+          match toks (adv st) with
+          | TExpr (XTailBad r) :: _ =>
+              let st' := adv (adv st) in
+              handled m ESyntax st' l (fun l' =>
+              pbind (pb endwhen st' l') (fun b st2 l2 =>
+              pbind (p_cases g' st2 l2) (fun c st3 l3 => POk (CWhen r b c) st3 l3)))
+          | _ =>
+              match inner true (adv st) with
+              | inr (e, st') => PErr e st' l
+              | inl (r, st') =>
+                  pbind (pb endwhen st' l) (fun b st2 l2 =>
+                  pbind (p_cases g' st2 l2) (fun c st3 l3 => POk (CWhen r b c) st3 l3))
+              end
           end
         else PErr ESyntax st l
     end.
@@ -423,7 +439,10 @@ Section Parser.
   Definition get_node (parse : stream -> log -> pres node) (endt : option tname) (st : stream) (l : log) : pres node :=
     match parse st l with
     | PErr e st' l' =>
-        handled m e st' l' (fun l2 => POk NIllegal (match endt with Some e' => eat_block [e'] st' | None => st' end) l2)
+        (* except LiquidError *)
+        if is_liquid e then
+          handled m e st' l' (fun l2 => POk NIllegal (match endt with Some e' => eat_block [e'] st' | None => st' end) l2)
+        else PErr e st' l'
     | r => r
     end.
 
@@ -431,7 +450,6 @@ Section Parser.
     match toks st with
     | TOutput :: _ => get_node p_output None st l
     | TTag n :: _ => get_node (parse_of g n) (end_of n) st l
-    | TComment :: _ => get_node (p_leaf NIllegal) (Some Nendcomment) st l
     | TDoc :: _ => get_node (p_leaf NIllegal) (Some Nenddoc) st l
     | _ => get_node p_content None st l
     end.
@@ -457,7 +475,8 @@ Fixpoint ploop (m : mode) (limit : nat) (f : nat) (stops : list tname) (st : str
           else
             match pnode m (pblock_of limit (ploop m limit f')) f' st l with
             | POk n st' l' => pbind (ploop m limit f' stops (adv st') l') (fun b st2 l2 => POk (BCons n b) st2 l2)
-            | PErr e st' l' => handled m e st' l' (fun l2 => ploop m limit f' stops (adv st') l2)
+            | PErr e st' l' =>
+                if is_liquid e then handled m e st' l' (fun l2 => ploop m limit f' stops (adv st') l2) else PErr e st' l'
             | PFuel => PFuel
             end
       end
@@ -472,6 +491,13 @@ Definition parse_fuel (m : mode) (limit : nat) (f : nat) (ts : list tok) : res (
 
 Definition parse (m : mode) (limit : nat) (ts : list tok) : res (block * log) :=
   parse_fuel m limit (S (tsize ts)) ts.
+
+(* CaseTag._parse_when_expression before the repair: a syntax error in a later alternative was dropped in EVERY mode, and an
+   alternative rejected only by a strict-mode check therefore made strict mode keep a SHORTER list than lax and warn mode.
+   rs: the value of the alternatives before the rejected one, rl: the value of the whole list. *)
+Definition when_value_old (m : mode) (rs rl : rexpr) : rexpr := match m with Strict => rs | _ => rl end.
+(* after the repair the rejected alternative raises in strict mode (the list is the token class XStrictOnly rl) *)
+Definition when_value (m : mode) (rs rl : rexpr) : option rexpr := match m with Strict => None | _ => Some rl end.
 
 (* ---------------------------------------------------------------- rendering *)
 Inductive intr := IBreak | IContinue.
